@@ -574,6 +574,11 @@ def gen_plan(seed: int, cls: str) -> dict:
         ops[pos:pos] = extra
     if roots and ro.random() < 0.45:
         ops.extend(_equal_values_scenario(ro, sym, roots, pick_custom))
+    if ro.random() < 0.3 and ndict < 5:
+        extra = _handler_identity_scenario(ro, sym, ndict, knobs)
+        ndict += 2
+        pos = ro.randrange(len(ops) + 1)
+        ops[pos:pos] = extra
     if ro.random() < 0.7:
         extra, nroot, ninst = _inferred_serialiser_scenario(ro, sym, roots, nroot, ninst)
         ops.extend(extra)
@@ -676,6 +681,39 @@ def _near_miss_scenario(ro, sym, roots, nroot, pick_custom):
     except HarnessError:
         pass
     return out, nroot
+
+
+def _handler_identity_scenario(ro, sym, ndict, knobs):
+    """
+    The application creates a handler object, uses it, drops it; later it creates another handler object (which the
+    allocator may place at the same address) that behaves differently.  Whatever pane learnt about the first one -
+    that it declines `int`, say - must not be applied to the second.  Two ways for the first to die: its memo entries
+    are evicted (bounded memo; a burst of temporaries in between), or it was only ever used in calls that raised.
+    """
+    a, b = f'h{ndict}', f'h{ndict + 1}'
+    out = []
+    variant = ro.choice(['evicted', 'evicted', 'raised'])
+    if variant == 'raised':
+        first, second = 'defer_ni', 'opaque'
+        probes = [(['s', 'Opaque'], 'op'), (['list', ['s', 'Opaque']], ['op', 7])]
+    else:
+        first = ro.choice(['defer_ni', 'defer_ni', 'upper_str', 'neg_float'])
+        second = ro.choice(['dbl_int', 'inc_int'])
+        probes = [(['s', 'int'], 5), (['list', ['s', 'int']], [1, 2]), (['dict', ['s', 'str'], ['list', ['s', 'int']]], {'a': [1, 2]})]
+    out.append({'op': 'mkdict', 'name': a, 'entries': ['obj', first]})
+    for (ast, data) in ro.sample(probes, ro.choice([1, 2])):
+        out.append({'op': 'inline', 't': ast, 'data': tg.enc(data), 'custom': ['dictref', a]})
+    out.append({'op': 'dropdict', 'name': a})
+    if variant == 'evicted':
+        # push the first handler's entries out of a bounded memo
+        lru = knobs.get('lru') if isinstance(knobs.get('lru'), int) else 4
+        for k in range(min(2 * lru + 2, 20)):
+            out.append({'op': 'inline', 't': ['tuple', ['s', 'int'], ['lit', k]], 'data': tg.enc([k, k]), 'custom': None})
+    out.append({'op': 'gc'})
+    out.append({'op': 'mkdict', 'name': b, 'entries': ['obj', second]})
+    for (ast, data) in probes:
+        out.append({'op': 'inline', 't': ast, 'data': tg.enc(data), 'custom': ['dictref', b]})
+    return out
 
 
 def _arg_handler_scenario(ro, sym):
@@ -1262,6 +1300,8 @@ class Exec:
         return tg.build_handlers(spec, self.world.faulty)
 
     def _dict_from_entries(self, entries):
+        if entries and entries[0] == 'obj':
+            return tg.HandlerObj(entries[1])
         if entries and entries[0] == 'list':
             return [tg.HANDLERS[n] for n in entries[1:]]
         convs = tg._custom_converters()
@@ -1295,7 +1335,10 @@ class Exec:
             self.trace.add('skip', i)
             return
         free0 = len(self.alloc.free)
-        self.alloc.release_literal(self.hdicts, op['name'])
+        if isinstance(self.hdicts[op['name']], tg.HandlerObj):
+            self.hdicts.pop(op['name'])         # dies by reference count unless pane still holds it (a memo key does)
+        else:
+            self.alloc.release_literal(self.hdicts, op['name'])
         self.hdict_entries.pop(op['name'], None)
         self.trace.add('dropdict', i, op['name'], len(self.alloc.free) - free0)
 
